@@ -35,6 +35,10 @@ CHECKS = {
   text="Codec-over-lossy-link simulation for the 12 stateful depacketizers: real encoder -> packets tagged (frame, position) -> simulated link whose seeded, explicit fault schedule drops / duplicates / late-duplicates / swaps packets and drops whole frames -> real decoder; history oracle: every frame that is clean by the statement's definition (its packets and its predecessor's arrived once, in order, contiguously) is returned intact exactly once, no later than the Decode call of the next frame's first packet; no panic; a fault-free configuration runs alongside. Seeded search over fault schedules and frame shapes, not enumeration.",
   note="Real: the encoders and decoders of pkg/format/rtp*. Simulated: the link (packet fates). No clock or concurrency is involved; frames are valid inputs built by the harness. What a decoder returns for frames that are not clean is unconstrained. A stray packet of an older frame landing between two intact frames counts as damage to the frame it precedes (conservative reading).",
   tech="deterministic simulation: seeded fault-schedule search over a lossy link, history oracle", ref="3.4"),
+ "C10": dict(
+  text="Whole-system deterministic simulation of authentication on the wire in three workloads: (A) real Client with credentials in the URL against a real Server calling VerifyCredentials, for every ordered non-empty subset of {Basic, Digest-MD5, Digest-SHA-256}, seeded user names / passwords (incl. ':') / paths / queries / track suffixes, play and record; (B) real Client against a scripted server issuing challenges with arbitrary realm / nonce / method list and verifying with auth.Verify; (C) scripted raw client with its own RFC 7617/2617/7616 implementation against a real Server: unauthenticated request -> 401 with exactly the enabled methods and the connection kept, valid credentials accepted, every single-field perturbation (user, password, realm, nonce, method, algorithm, URI, response, scheme not enabled) rejected with 401 and the connection closed. Latency and every chunking mode (1-byte reads of the Authorization header).",
+  note=WHOLE_NOTE + " The SETUP base-URL relaxation forms are sent as valid requests and never counted as perturbations.",
+  tech="deterministic simulation: real client/server pairs and scripted peers over a simulated network, perturbation search", ref="3.5"),
  "C11": dict(
   text="Whole-system deterministic simulation with 1..4 simultaneous hostile scripted control connections (valid play/record conversations, interleaved frames in any state, HTTP-tunnel and WebSocket handshakes, base64 blocks, garbage; 16 grammar/byte-level mutation kinds; every chunking; ending in close, RST or silence; plain or after a TLS handshake) next to a well-behaved real client: no panic or deadlock, every hostile connection answered or closed within the configured timeouts (simulated time), the well-behaved client's stream stays in order and gap-free, and after all timeouts the server registries, stream reader slots, server-node sockets and library goroutine count are back at the baseline taken before the attack; a fresh client is then served; OnConnOpen/OnConnClose balanced.",
   note=WHOLE_NOTE, tech="deterministic simulation with fault injection: hostile scripted peers, resource census vs baseline", ref="3.6"),
@@ -45,6 +49,10 @@ CHECKS = {
  "C13": dict(
   text="Whole-system deterministic simulation with Server.Close, ServerStream.Close and Client.Close (from another goroutine) landing at seeded instants between any two protocol steps - idle, mid-handshake, playing, recording, paused, with a writer running, with peers that stopped reading (bounded window) or vanished - and seeded holds at ~40 yield sites on the shutdown paths; oracles: Close latency in simulated time, socket census of the closed object's node, goroutines attributed to the closed object (creator chains) and a complete end-of-run census, open/close notification balance and no packet/request callback after OnSessionClose (global sequence numbers).",
   note=WHOLE_NOTE, tech="deterministic simulation with fault injection: close-point and shutdown-interleaving search, census + callback-history oracle", ref="3.8"),
+ "C18": dict(
+  text="Whole-system deterministic simulation with wire taps: server and per-client MaxPacketSize from 32 to 1472 (and default), plain and RTSPS+SRTP (incl. client-managed keys with MKI), UDP and interleaved, packets swept around the limit (header + CSRC + extension + payload + padding; single and compound RTCP) through ServerStream, ServerSession and Client write entry points; every UDP datagram and interleaved-frame payload leaving a library endpoint (automatic reports and firewall-opening packets included) is measured against that endpoint's maximum, an oversize write must return an error and put nothing on the wire, and Start() must reject MaxPacketSize > 1472 and write-queue sizes that are not powers of two.",
+  note=WHOLE_NOTE + " The multicast writer entry point and the HTTP/WebSocket tunnels are excluded; maxima below 32 are treated as degenerate.",
+  tech="deterministic simulation with wire taps: size sweep around the limit, datagram/frame size oracle", ref="3.13"),
 }
 
 def chk(pid, d):
